@@ -697,6 +697,10 @@ func checkC10(args []string) {
 		run.Note("model counterexample in RowSync (%s, deadlock=%v): information only", mc.InvViolated, mc.Deadlocked)
 	}
 
+	if run.Thorough() {
+		rowSyncCoreProof(run)
+	}
+
 	rng := rand.New(rand.NewSource(run.Seed))
 	sizes := [][2]int{{96, 128}, {48, 64}, {160, 80}, {33, 100}}
 	if run.Thorough() {
@@ -866,4 +870,68 @@ func lastEvents(ev []verifhook.Event, n int) string {
 		s += fmt.Sprintf("%s(y=%d,a=%d) ", e.K, e.Y, e.A)
 	}
 	return s
+}
+
+// rowSyncCoreProof runs the design-level checks of spec/RowSyncCore.tla (the wait/signal core of one row, cut out of
+// RowSync with the same action labels): TLC on small constants (the inductive invariant holds in every reachable state,
+// every wait returns), TLC on the variant without the Lock/Unlock pair in signal() (a lost wake-up must be reachable:
+// non-vacuity), and Apalache for every row width: Init => IndInv, IndInv /\ Next => IndInv', IndInv => Quiet, and
+// the failure of the inductive step without the lock. Model-level results are information (evidence notes), the
+// verdict of C10 comes from the real runs below.
+func rowSyncCoreProof(run *vx.Run) {
+	core := map[string]any{}
+	mc, err := vx.RunTLC(vx.TLCOpts{Module: "MC_RowSyncCore", Cfg: "MC_RowSyncCore.cfg", Workers: 12, Timeout: 30 * time.Minute, Heap: "8g"})
+	if err != nil {
+		run.Note("RowSyncCore: TLC did not run: %v", err)
+	} else {
+		run.AddTLC(mc)
+		core["tlc_width3_distinct_states"] = mc.Distinct
+		core["tlc_width3_ok"] = mc.OK()
+		if !mc.OK() {
+			run.Note("model counterexample in RowSyncCore (%s %s): information only", mc.InvViolated, mc.ErrText)
+		}
+	}
+	nl, err := vx.RunTLC(vx.TLCOpts{Module: "MC_RowSyncCore", Cfg: "MC_RowSyncCore_nolock.cfg", Workers: 12, Timeout: 30 * time.Minute, Heap: "8g"})
+	if err == nil {
+		core["tlc_nolock_violates"] = nl.InvViolated
+		if nl.InvViolated != "NoLostWakeup" {
+			run.Note("RowSyncCore without the signal lock: expected a NoLostWakeup counterexample, got %q (the model has lost its discriminating power)", nl.InvViolated)
+		}
+	}
+	apa := func(name string, wantOK bool, args ...string) {
+		dir, err := os.MkdirTemp("", "vx-apalache-")
+		if err != nil {
+			return
+		}
+		defer os.RemoveAll(dir)
+		src, err := os.ReadFile(vx.SpecDir + "/RowSyncCore.tla")
+		if err != nil || os.WriteFile(dir+"/RowSyncCore.tla", src, 0o644) != nil {
+			return
+		}
+		a := append([]string{"600", "apalache-mc", "check", "--out-dir=" + dir + "/out"}, args...)
+		cmd := exec.Command("timeout", append(a, "RowSyncCore.tla")...)
+		cmd.Dir = dir
+		out, _ := cmd.CombinedOutput()
+		s := string(out)
+		switch {
+		case strings.Contains(s, "EXITCODE: OK"):
+			core["apalache_"+name] = "no error"
+			if !wantOK {
+				run.Note("RowSyncCore/Apalache %s: expected a counterexample, found none", name)
+			}
+		case strings.Contains(s, "EXITCODE: ERROR (12)"):
+			core["apalache_"+name] = "counterexample"
+			if wantOK {
+				run.Note("RowSyncCore/Apalache %s: counterexample (information only)", name)
+			}
+		default:
+			core["apalache_"+name] = "not run"
+			run.Note("RowSyncCore/Apalache %s did not complete", name)
+		}
+	}
+	apa("init_implies_indinv", true, "--cinit=ConstInit", "--init=Init", "--inv=IndInv", "--length=0")
+	apa("indinv_inductive_any_width", true, "--cinit=ConstInit", "--init=IndInit", "--inv=IndInv", "--length=1")
+	apa("indinv_implies_quiet", true, "--cinit=ConstInit", "--init=IndInit", "--inv=Quiet", "--length=0")
+	apa("nolock_not_inductive", false, "--cinit=ConstInitNoLock", "--init=IndInit", "--inv=IndInv", "--length=1")
+	run.Cov["rowsync_core"] = core
 }
